@@ -25,7 +25,7 @@ theorem WFD_evCall : ∀ (x : Call) (d : Nat) (tail : List Rec), WFD d tail → 
   | .node f t0 t1 kids, d, tail, h => by
     simp only [evCall, List.singleton_append, List.cons_append, List.append_assoc, List.nil_append, WFD]
     left
-    refine ⟨rfl, rfl, ?_⟩
+    refine ⟨trivial, trivial, ?_⟩
     exact WFD_evCalls kids (d + 1) _ (WFD_append_exit d _ rfl rfl tail h)
 theorem WFD_evCalls : ∀ (xs : Calls) (d : Nat) (tail : List Rec), WFD d tail → WFD d (evCalls d xs ++ tail)
   | .nil, d, tail, h => by simpa [evCalls] using h
@@ -58,9 +58,12 @@ theorem fsEntry_reject_comm (c : RCfg) (s : FS) (f : Nat) (h : (fsEntry c s f).2
     fsEntry c (updEntry s) f = (updEntry (fsEntry c s f).1, false) := by
   have hv : (verdict c s f == Verdict.accept) = false := h
   have hv' : verdict c s f ≠ Verdict.accept := by simpa using hv
+  have hvu : verdict c (updEntry s) f = verdict c s f := rfl
+  have hda : ∀ tr, depthAfter c (updEntry s) tr = depthAfter c s tr := fun _ => rfl
   refine Prod.ext ?_ ?_
-  · apply fs_ext <;> simp [fsEntry, updEntry, verdict_updEntry, depthAfter, hv']
-  · exact h
+  · apply fs_ext <;> simp only [fsEntry, hvu, hda] <;> simp [updEntry, hv']
+  · show (verdict c (updEntry s) f == Verdict.accept) = false
+    rw [hvu]; exact hv
 
 theorem fsExit_updEntry (c : RCfg) (s : FS) : fsExit c (updEntry s) = updEntry (fsExit c s) := by
   apply fs_ext <;> simp [fsExit, updEntry, topFr]
